@@ -63,7 +63,7 @@ REGISTRY = {
     'C10': dict(mods=['C10', 'C10Props'], thms=['C10_value', 'C10_accepts_only_encodable', 'C10_field_table_domain', 'C10_args', 'C10_props'],
                 tie=['tieA_guards', 'tieA_guard_packers', 'tieA_ladder', 'tieA_struct_formats', 'tieA_struct_uses', 'tieA_codec_calls'],
                 lanes=['enc_prim', 'enc_tint', 'enc_value:any', 'args', 'props/props.marshal,props.unmarshal'], oracles=['c10']),
-    'C11': dict(mods=['C11', 'C11Nested'], thms=['C11_first_fit', 'C11_legacy', 'C11_domain', 'C11_fixed_width_guards', 'C11_fixed_width_accept', 'C11_nested_same_chain', 'C11_toggle', 'C11_legacy_tags_nested', 'C11_full_tags_nested'],
+    'C11': dict(mods=['C11', 'C11Nested'], thms=['C11_first_fit', 'C11_legacy', 'C11_domain', 'C11_fixed_width_guards', 'C11_fixed_width_accept', 'C11_nested_same_chain', 'C11_toggle', 'C11_legacy_tags_nested', 'C11_full_tags_nested', 'C11_adjacent_independent'],
                 tie=['tieA_ladder', 'tieA_guards', 'tieA_guard_packers', 'tieA_toggle'], lanes=['enc_tint', 'enc_prim/enc.prim.short_int,enc.prim.short_uint,enc.prim.long_int,enc.prim.long_uint,enc.prim.long_long_int', 'api_toggle'], oracles=['c11']),
     'C12': dict(mods=['C12'], thms=['C12_perm_invariant', 'C12_table_perm_invariant', 'C12_sorted', 'C12_sorted_perm', 'C12_order_total', 'C12_order_antisymm'],
                 tie=['tieA_no_shared_mutation'], lanes=['enc_value:ok', 'cpython_sort'], oracles=['c12']),
